@@ -314,18 +314,15 @@ impl WmoWriter {
         &self,
         writer: &mut W,
         materials: &[WmoMaterial],
-        target_version: WmoVersion,
+        _target_version: WmoVersion,
     ) -> Result<()> {
         if materials.is_empty() {
             return Ok(());
         }
 
-        // Determine material size based on version
-        let material_size = if target_version >= WmoVersion::Mop {
-            64
-        } else {
-            40
-        };
+        // SMOMaterial records are 64 bytes in every supported version, and 64 bytes
+        // per material are what the loop below emits (36 of fields + 28 of padding)
+        let material_size = 64;
 
         let header = ChunkHeader {
             id: chunks::MOMT,
